@@ -136,6 +136,14 @@ def check_case(rep, c, rng, systems, swap=False):
     kd = [kdim[i] - krdim[i] for i in range(3)]
     if K is None or abs(K.value - want) > 1e-12 * want or [K.units.dim["space"], K.units.dim["time"], K.units.dim["quantity"]] != kd:
         rep.violation("split", "reaction:equilibrium-constant", dict(detail, got=str(K), want=want, dim=kd))
+    # the ratio is a ratio whatever the magnitudes (only an exactly null reverse constant has no equilibrium constant)
+    for kfv, krv in ((3e-9, 4e-12), (2.5, 1e-9), (1e20, 5e-30), (7e-31, 2e-300), (4e-200, 5e-290)):
+        rm = Reaction(texts[0], kf=kfv, kr=krv, units_system=usys)
+        Km = rm.K
+        wantm = kfv / krv
+        if Km is None or not (abs(Km.value - wantm) <= 1e-12 * wantm):      # (normal-range magnitudes only: 1/kr must not overflow)
+            rep.violation("split", "reaction:equilibrium-constant:magnitude", dict(detail, kf=kfv, kr=krv, got=str(Km), want=wantm))
+            break
     if Reaction(texts[0], kf=1.0, kr=0).K is not None:
         rep.violation("split", "reaction:equilibrium-constant-kr0", detail)
     rd = Reaction(texts[0], kf={"a": 4.0, "default": 1.0}, kr={"a": 2.0, "b": 0.0})
